@@ -26,6 +26,7 @@ type layoutEvents struct {
 	Fields map[string]Lin // current integer value of receiver fields at return (by promoted path)
 	Elem   map[Sym]lfElemRef // symbols standing for bytes loaded from a tracked buffer
 	SymName func(Sym) string
+	ParamSym map[int]Sym // integer parameters of the entry function → their symbols
 }
 
 // feasibleWith: can the receiver fields take the given values on this path?
@@ -52,6 +53,15 @@ func extractEvents(c *Ctx, fn *ssa.Function, widths map[string]int) ([]layoutEve
 	e.bits = true
 	e.elemLoads = map[Sym]lfElemRef{}
 	e.fieldWidth = widths
+	if fn.Signature.Recv() == nil {
+		// a plain function: its pointer-to-struct parameters are tracked as m<index>
+		e.paramNames = map[int]string{}
+		for i, p := range fn.Params {
+			if pointsToStruct(p.Type()) {
+				e.paramNames[i] = fmt.Sprintf("m%d", i)
+			}
+		}
+	}
 	var out []layoutEvents
 	e.onStore = func(st *lfState, kind, name, val string, pos token.Pos, b *bv) {
 		st.events = append(st.events, lfEvent{Kind: kind, Name: name, Val: val, Pos: pos, B: b})
@@ -77,6 +87,7 @@ func extractEvents(c *Ctx, fn *ssa.Function, widths map[string]int) ([]layoutEve
 		}
 		le := layoutEvents{Cond: append([]string{}, st.trail...), Events: append([]lfEvent{}, st.events...), Bools: map[string]bool{}, OK: ok, Cons: append([]Cons{}, st.cons...), Fields: map[string]Lin{}}
 		le.Elem = e.elemLoads
+		le.ParamSym = e.paramSyms
 		le.SymName = func(sy Sym) string {
 			if int(sy) >= 0 && int(sy) < len(e.symNames) {
 				return e.symNames[sy]
@@ -160,7 +171,7 @@ func cmdLayout(args []string) int {
 			}
 		}
 		for _, ev := range le.Events {
-			if ev.Kind == "cmp" || strings.HasPrefix(ev.Kind, "loop:") {
+			if ev.Kind == "cmp" || ev.Kind == "hash" || strings.HasPrefix(ev.Kind, "loop:") {
 				extra := ""
 				if ev.Loop != nil {
 					extra = fmt.Sprintf("  guard=%v", ev.Loop.Guard)
